@@ -178,8 +178,10 @@ class Neo4jCBMGraph(Neo4jPropertyGraph, ABCCBMPropertyGraph):
         # temporary ADM graph (after that it ceases to exist)
         # NOTE: this takes advantage of Neo4j semantics of common store for all graphs
         # and changing the GraphID property effectively makes graph takes on a new identity
-        temp_adm_graph.update_nodes_property(prop_name=ABCPropertyGraphConstants.GRAPH_ID,
-                                             prop_val=self.graph_id)
+        # (nothing remains when every node of the ADM was a common node)
+        if temp_adm_graph.graph_exists():
+            temp_adm_graph.update_nodes_property(prop_name=ABCPropertyGraphConstants.GRAPH_ID,
+                                                 prop_val=self.graph_id)
 
     def unmerge_adm(self, *, graph_id: str) -> None:
         # Search ADMGraphIDs property and remove those nodes where it is the only
